@@ -300,6 +300,10 @@ def stream_codec(I, R, r, n):
                       'evallit\t' + wire.enc(lit), post_unm(lambda c: unm_justified_lit(c.input['s'])))
 
 def gen_accepted(r, k):
+    if k == 'normalized' and r.random() < 0.5:
+        words = [r.choice(['alpha', 'be-ta', 'well-known-fact', 'x' * r.randint(1, 90), 'é', 'a\\b', '--', 'q-', '-', 'foo--bar', '\\' * r.randint(1, 5), gen_str(r, 5)])
+                 for _ in range(r.randint(1, 25))]
+        return ' '.join(words)
     if k in STR_CLASSES:
         return gen_value_str(r)
     if k == 'bool':
@@ -398,6 +402,14 @@ def stream_values(I, R, r, nbatches, per_batch):
                 R.add(Case(dict(inp, op='val_str'), impl=wire.enc(node_str), kind='value',
                            tags=('str-' + k,) + (('quoted',) if k in STR_CLASSES and node_str != stored else ())),
                       'val_str\t%s\t%s\t%s' % (mk, pr, enc_val(stored)))
+                if k == 'normalized':
+                    import textwrap
+                    esc = I.registry.encoder(node_str)[0].decode()
+                    tw = textwrap.TextWrapper(width=max(1, wrap_width(full)))
+                    chunks = tw._split_chunks(tw._munge_whitespace(esc))
+                    R.add(Case(dict(inp, op='ns_ser', chunks=chunks), impl='raise' if ser is None else 'ok\t' + wire.enc(ser), kind='value',
+                               tags=('ns-ser', 'ns-lines%d' % min(3, (ser or '').count('\n') + 1)) + (('ns-raise',) if ser is None else ())),
+                          'ns_ser\t%s\t%s' % (wire.enc(full), wire.enc_list(chunks)))
                 if ser is not None and (k != 'normalized' or '\n' not in ser):
                     R.add(Case(dict(inp, op='val_ser'), impl=wire.enc(ser), kind='value', tags=('ser-' + k,)),
                           'val_ser\t%s\t%s\t%s' % (mk, pr, enc_val(stored)))
@@ -1006,6 +1018,14 @@ def stream_tree(I, R, r, n_hist, maxops=14):
 def tree_post(outs, c, lines):
     """model output lines for one history"""
     outs = list(outs)
+    if c.input['class'] == 'normalized':
+        # NormalizedString.serialize wraps long texts: the history protocol carries no textwrap chunks,
+        # so the saved text is compared only when every line fits (wrapping is compared by the value stream)
+        impl = c.impl.split('\n'); changed = False
+        for i, l in enumerate(lines):
+            if l == 't_save' and i < len(impl) and i < len(outs) and '5c0a' in impl[i]:
+                impl[i] = outs[i] = 'wrapped'; changed = True
+        if changed: c.impl = '\n'.join(impl)
     # the model's saved text carries the header: keep the value lines only
     for i, o in enumerate(outs):
         if lines[i] == 't_save' and o != 'bad-op':
